@@ -187,3 +187,38 @@ def interleaved_layout(scn, blocks, r, nfiles=3, reserve=4000, first_height=0, s
         pos[names[f]] = off + len(raw)
         scn.kvs.append(K.record(b.hash(), first_height + i, status, len(b.txs), f, off, b.header(), undo=i * 7 + 1))
     return names
+
+
+def literal_chain(r, coin, L, variant=0):
+    """a short chain built around a number L found in the changed source: L as block height (blocks L-2 .. L+2 of a sparse index), as
+    output value, script / witness-item / scriptSig length, number of outputs or inputs, block and transaction version, lock time,
+    sequence and timestamp — each also at L-1 and L+1.  Returns (blocks, first_height)."""
+    first = max(0, L - 2) if L < (1 << 40) else 0
+    n = 5
+    blocks = gen_chain(r, coin, n, max_txs=1, max_io=2, segwit=False, auxpow_mix=False, start_height=first)
+    for k, b in enumerate(blocks):
+        v = max(0, L + 2 - k) if variant != 3 else (9 * 10**15 if first + k == L else 1000 + k)    # L+2 .. L-2, descending: the record figures are set early
+        outs = [(v & ((1 << 64) - 1), spk(r, coin, "p2pkh")), (1, b"\x6a" + bytes([0x4e]) + (max(0, min(v, 120000))).to_bytes(4, "little") + rb(r, max(0, min(v, 120000))))]
+        ins = [(rb(r, 32), v & 0xffffffff, rb(r, min(max(0, v), 30000)), v & 0xffffffff)]
+        tx = K.Tx(ins, outs, version=v & 0xffffffff, lock=v & 0xffffffff)
+        if variant == 1 and v <= 70000:
+            # v outputs / v inputs
+            tx = K.Tx([(rb(r, 32), j, b"\x01\x01", 0xffffffff) for j in range(max(1, min(v, 3000)))], [(j + 1, spk(r, coin, "p2pkh") if j % 7 else b"\x6a\x01\x41") for j in range(max(1, v))])
+        if variant == 3:
+            # everything remarkable happens exactly AT height L: biggest value, biggest size, most outputs, first OP_RETURN text
+            tx = K.Tx([(rb(r, 32), 0, rb(r, 5000 if first + k == L else 10), 1)],
+                      [(v, spk(r, coin, "p2pkh"))] + ([(0, b"\x6a\x0bheight text")] * (40 if first + k == L else 0)) + [(2, spk(r, coin, "p2sh"))])
+        if variant == 2:
+            tx.segwit = (1, 1, [[rb(r, min(max(0, v), 120000)), b"\x02" + rb(r, 32)]])
+        b.txs.append(tx)
+        if variant != 3:
+            if coin not in K.AUXPOW or (v & 0xffffffff) < K.AUXPOW[coin]:
+                b.version = v & 0xffffffff
+            if 0 < (v & 0xffffffff):
+                b.time = v & 0xffffffff
+    prev = blocks[0].prev
+    for b in blocks:
+        b.prev = prev
+        b.merkle_root = None
+        prev = b.hash()
+    return blocks, first
